@@ -27,7 +27,7 @@ THEOREMS = ["Mesa.ASet." + t for t in (
     "C03_getitem_negative_indices_and_slices",
     "C18_agents_remove_absent_reject_unchanged", "C18_agents_sort_missing_key_reject_unchanged",
     "C18_agents_groupby_missing_key_reject_unchanged", "C18_agents_pop_empty_reject_unchanged",
-    "C18_agents_any_reject_unchanged")]
+    "C18_agents_any_reject_unchanged", "C18_agents_reject_exactly_when")]
 COUNTS = {"quick": 1200, "thorough": 150000}
 TRUSTED = [
     "CPython dict / WeakKeyDictionary insertion order; sorted() is a stable sort and reverse=True keeps the order of equal keys (the model uses List.mergeSort)",
